@@ -17,7 +17,10 @@ RULE = ("history = real AIOKafkaConsumer (manual assignment) over 1-3 generated 
         "batches), partly loaded up front and partly appended while consuming; 1-3 tasks issuing seeded mixes of "
         "getone/getmany(max_records, partitions)/seek/pause/resume/position; 3 brokers with leader moves, retriable "
         "fetch errors, resets, lost replies, delays; responses cut at every batch boundary or by small "
-        "max_partition_fetch_bytes, optional trailing partial batch; fetch v1..v11; compiled and pure-Python codec. "
+        "max_partition_fetch_bytes, optional trailing partial batch; fetch v1..v11; compiled and pure-Python codec; in half "
+        "of the histories the replies of all brokers reach the client on a common 10/50 ms lattice (several fetch tasks "
+        "finish in one pass of the fetch routine) and a third drain through single getone() calls allowed to block for "
+        "3 request timeouts (a lost wake-up is not repaired by calling again). "
         "Non-trivial = at least one seek or pause issued by a worker task within 0.6 virtual s of a fetch reply for "
         "that partition. Distinct = signature over (log shape parameters, op kinds sequence, fault kinds hit).")
 ASSUMPTIONS = [
@@ -29,7 +32,9 @@ ASSUMPTIONS = [
 ]
 REQUIRED_COUNTERS = ["histories_judged", "records_checked", "seeks", "records_after_seek_checked", "positions_checked",
                      "pause_windows", "getmany_subset_calls", "drained_partitions", "seek_with_fetch_in_flight",
-                     "histories_pure_python_codec", "histories_compiled_codec", "mixed_magic_histories"]
+                     "histories_pure_python_codec", "histories_compiled_codec", "mixed_magic_histories",
+                     "patient_drain_histories", "patient_getone_records", "reply_lattice_histories",
+                     "coincident_data_and_empty_fetch_replies"]
 
 
 def prepare(tier, seed, scratch):
